@@ -236,6 +236,50 @@ fn expected(c: &Case, key: &str, val: &str) -> Option<Result<(), String>> {
     }
 }
 
+/// Equivalence class of an observation key for C09: every observation in one class, from every
+/// implementation and every configuration, must carry the same value. `None`: not compared.
+fn c09_class(c: &Case, key: &str, val: &str) -> Option<String> {
+    match c {
+        Case::Byte { .. } => {
+            let op = key.rsplit('.').next().unwrap_or("");
+            match op {
+                "find" | "find_raw" => Some("first position".into()),
+                "rfind" | "rfind_raw" => Some("last position".into()),
+                "count" if val != "-" => Some("count".into()),
+                "raw_empty" => Some("raw(start==end)".into()),
+                _ => None,
+            }
+        }
+        Case::Iter { .. } => Some(if key.starts_with("toprev") { "reverse iterator sequence".into() } else { "iterator sequence".into() }),
+        Case::Sub { .. } => {
+            if key == "find_iter" || key == "find_iter.top" {
+                return Some("find_iter sequence".into());
+            }
+            if key == "rfind_iter" {
+                return Some("rfind_iter sequence".into());
+            }
+            if let Some(imp) = key.strip_prefix("s").and_then(|s| s.parse::<u8>().ok()) {
+                return Some(if imp >= 16 { "rightmost occurrence".into() } else { "leftmost occurrence".into() });
+            }
+            if key == "construct" || key == "search" {
+                return Some(key.to_string());
+            }
+            None
+        }
+        Case::Pair { .. } => {
+            if key.ends_with(".find") && val != "P" && val != "-" {
+                Some("packed pair find".into())
+            } else if key.ends_with(".min") || key == "pair" {
+                Some(key.to_string())
+            } else {
+                None
+            }
+        }
+        Case::Eq { .. } => Some(if key == "is_equal_raw" { "is_equal".to_string() } else { key.to_string() }),
+        Case::Hist(_) => Some(key.to_string()),
+    }
+}
+
 fn pair_judgement(c: &Case, obs: &BTreeMap<String, String>) -> Option<(String, String, String)> {
     if let Case::Pair { needle, i1, i2, hay, .. } = c {
         let e = oracle::naive_find(hay, needle);
@@ -323,7 +367,8 @@ pub fn judge_cases(ctx: &Ctx) -> Frag {
         let aborted: Vec<usize> = begun.into_iter().filter(|&i| i < obs.len() && obs[i].is_none()).collect();
         outs.push((cfg.to_string(), obs, aborted));
     }
-    let judge_values = ctx.prop != "C05";
+    let judge_values = ctx.prop != "C05" && ctx.prop != "C09";
+    let cross_only = ctx.prop == "C09";
     let mut per_cfg: BTreeMap<String, u64> = BTreeMap::new();
     'cases: for (i, c) in cases.iter().enumerate() {
         let c = match c {
@@ -332,6 +377,8 @@ pub fn judge_cases(ctx: &Ctx) -> Frag {
         };
         let mut first: Option<(&str, &BTreeMap<String, String>)> = None;
         let mut executed = 0;
+        // C09: value per equivalence class, with the (configuration, key) that produced it first
+        let mut classes: BTreeMap<String, (String, String, String)> = BTreeMap::new();
         for (cfg, obs, aborted) in outs.iter() {
             if aborted.contains(&i) {
                 // the interpreter (Miri) or the process died while executing this case
@@ -350,6 +397,33 @@ pub fn judge_cases(ctx: &Ctx) -> Frag {
             };
             executed += 1;
             *per_cfg.entry(cfg.clone()).or_insert(0) += 1;
+            if cross_only {
+                for (k, v) in o.iter() {
+                    let cl = match c09_class(c, k, v) {
+                        Some(cl) => cl,
+                        None => continue,
+                    };
+                    match classes.get(&cl) {
+                        None => {
+                            classes.insert(cl, (cfg.clone(), k.clone(), v.clone()));
+                        }
+                        Some((cfg0, k0, v0)) => {
+                            if v0 != v {
+                                // which side is wrong? (only to word the report)
+                                let wrong_here = matches!(expected(c, k, v), Some(Err(_)));
+                                let (bad_cfg, bad_k, bad_v, ok_cfg, ok_k, ok_v) = if wrong_here { (cfg, k, v, cfg0, k0, v0) } else { (cfg0, k0, v0, cfg, k, v) };
+                                frag.violation(json!({
+                                    "property": ctx.prop, "kind": "casefile", "config": bad_cfg, "impl": bad_k, "op": cl, "case_line": c.encode(), "case": case_json(c), "haystack_len": c.encode().len(),
+                                    "what": format!("{}: {} answers {} in configuration {}, but {} answers {} in configuration {}", cl, bad_k, bad_v, bad_cfg, ok_k, ok_v, ok_cfg),
+                                    "expected": ok_v, "observed": bad_v, "signature": format!("{}|{}|{}|{}", ctx.prop, bad_cfg, bad_k, c.encode()),
+                                }));
+                                continue 'cases;
+                            }
+                        }
+                    }
+                }
+                continue;
+            }
             if !judge_values {
                 continue;
             }
